@@ -198,3 +198,14 @@ prop("C04", [_lazy("emit", "rule_sib1"), _lazy("emit", "rule_sib2"), _lazy("emit
      "counterparts (TBL-1); field labels cannot come from the class-name conversion (CACHE-2); style tables are "
      "per instance (GLOB-1).",
      "per-program equality between evaluated annotation and IR type; Jinja whitespace; nested-class indentation")
+
+prop("C12", [_lazy("layout", "rule_lay1"), _lazy("layout", "rule_lay2"), _lazy("layout", "rule_lay3")],
+     "Static decision of: in both layout functions the table of structure entries is built once up front and never "
+     "rewritten in the placement loop, and on every non-raising path through the per-model loop (path enumeration; "
+     "try/except counted once because insert_before raises before inserting) the current model's entry is inserted "
+     "into exactly one list (LAY-1); _generate_code creates exactly one generator per entry, renders nested entries "
+     "recursively, appends one class text per generator, every generate() override forwards nested_classes, and "
+     "the template emits them (LAY-2); nesting happens only on paths without root-level references and with a "
+     "single parent/root, the flat layout never touches nested lists and both layouts share the renderer (LAY-3).",
+     "class-by-class equality of the two emitted modules; 'root first'; reachability of placed entries for non-tree "
+     "graphs (run-time graph shape)")
